@@ -23,33 +23,54 @@ def ensure_dirs():
         os.makedirs(d, exist_ok=True)
 
 
-def run(cmd, cwd=None, timeout=None, env=None, mem_gb=None, stdin=None):
-    """Run cmd (list) with wall timeout and address-space cap; returns (rc, output, secs, timed_out)."""
-    t0 = time.time()
-    pre = None
-    if mem_gb:
-        import resource
-
-        def pre():
-            os.setsid()
-            lim = int(mem_gb * (1 << 30))
-            resource.setrlimit(resource.RLIMIT_AS, (lim, lim))
-    else:
-        pre = os.setsid
-    p = subprocess.Popen(cmd, cwd=cwd, env=env, stdout=subprocess.PIPE, stderr=subprocess.STDOUT,
-                         stdin=subprocess.DEVNULL if stdin is None else stdin, preexec_fn=pre, text=True,
-                         errors="replace")
-    timed_out = False
-    try:
-        out, _ = p.communicate(timeout=timeout)
-    except subprocess.TimeoutExpired:
-        timed_out = True
+def _pgid_rss_gb(pgid):
+    tot = 0
+    for d in os.listdir("/proc"):
+        if not d.isdigit():
+            continue
         try:
-            os.killpg(p.pid, signal.SIGKILL)
-        except ProcessLookupError:
-            pass
-        out, _ = p.communicate()
-    return p.returncode, out, time.time() - t0, timed_out
+            with open(f"/proc/{d}/stat") as f:
+                st = f.read()
+            rp = st.rfind(")")
+            fields = st[rp + 2:].split()
+            if int(fields[2]) != pgid:      # pgrp
+                continue
+            tot += int(fields[21]) * 4096     # rss pages
+        except Exception:
+            continue
+    return tot / (1 << 30)
+
+
+def run(cmd, cwd=None, timeout=None, env=None, mem_gb=None, stdin=None):
+    """Run cmd (list) in its own process group with a wall timeout and an RSS watchdog (sum over the group);
+    returns (rc, output, secs, timed_out). A memory kill is reported as timed_out with 'MEMORY-LIMIT' in the output."""
+    import threading
+    t0 = time.time()
+    p = subprocess.Popen(cmd, cwd=cwd, env=env, stdout=subprocess.PIPE, stderr=subprocess.STDOUT,
+                         stdin=subprocess.DEVNULL if stdin is None else stdin, preexec_fn=os.setsid, text=True,
+                         errors="replace")
+    state = {"killed": None}
+
+    def watchdog():
+        while p.poll() is None:
+            if timeout and time.time() - t0 > timeout:
+                state["killed"] = "timeout"
+            elif mem_gb and _pgid_rss_gb(p.pid) > mem_gb:
+                state["killed"] = "memory"
+            if state["killed"]:
+                try:
+                    os.killpg(p.pid, signal.SIGKILL)
+                except ProcessLookupError:
+                    pass
+                return
+            time.sleep(1.5)
+    th = threading.Thread(target=watchdog, daemon=True)
+    th.start()
+    out, _ = p.communicate()
+    th.join(timeout=5)
+    if state["killed"] == "memory":
+        out += f"\nMEMORY-LIMIT: process group exceeded {mem_gb} GB RSS and was killed\n"
+    return p.returncode, out, time.time() - t0, state["killed"] is not None
 
 
 def read(path):
